@@ -106,6 +106,8 @@ pub enum Op {
     Reset,
     SetVar(String, Val),
     EvalFn(String, Vec<Val>),
+    /// evaluate_function(name, [value of the named global as read by get_variable])
+    EvalFnVarArg(String, String),
     Observe(usize, String),
     Unobserve(usize, Option<String>),
     Bind(String, bool),
@@ -426,6 +428,14 @@ impl Player {
                 let r = self.story.evaluate_function(n, Some(&a), &mut out);
                 Self::wrap(r, |v| format!("{} text={:?}", show_opt(&v), out))
             }
+            Op::EvalFnVarArg(n, var) => match self.story.get_variable(var) {
+                None => Err(("harness".into(), format!("no variable {var}"))),
+                Some(v) => {
+                    let mut out = String::new();
+                    let r = self.story.evaluate_function(n, Some(&vec![ValueType::Int(1), v]), &mut out);
+                    Self::wrap(r, |v| format!("{} text={:?}", show_opt(&v), out))
+                }
+            },
             Op::Observe(id, var) => {
                 let o = self.observer(*id);
                 Self::wrap(self.story.observe_variable(var, o), |_| String::new())
